@@ -652,14 +652,14 @@ package mqtt
 //@ requires c.persistence != nil && c.ctx != nil && c.Dialer != nil && config != nil
 //@ requires len(config.UserName) <= 65535 && len(config.Password) <= 65535 && len(config.Will.Topic) <= 65535 && len(config.Will.Message) <= 65535
 //@ requires st_has(c.persistence, 0) ==> st_len(c.persistence, 0) <= 65535
-//@ modifies wire, wire_len, wclosed, wdl, rdl, c.InNewSession.v, cpos
+//@ modifies wire, wire_len, wclosed, wdl, rdl, c.InNewSession.v, cpos, cancelled
 //@ ensures[C18,C12,C10] err == nil ==> conn != nil && bufr != nil && conn != boxed(connSignal, 0) && conn != boxed(connSignal, 1) && rx_src(bufr) == conn && rx_bufref(bufr) > 0 && fresh_ref(rx_bufref(bufr)) && rx_size(bufr) == readBufSize
 //@ ensures[C18,C12] err != nil ==> conn == nil && bufr == nil
 
 // connect: installs a new connection. Resends happen while both sequence tokens and the
 // write token are held and after connection control was handed back (so Close can interrupt).
 //@ func mqtt.(*Client).connect -> err
-//@ modifies chanstate(c.connSem), chanstate(c.writeSem), chanstate(c.atLeastOnce.seqSem), chanstate(c.exactlyOnce.seqSem), chanstate(c.onlineSig), chanstate(c.offlineSig), chanstate(qat(c.onlineSig, 0)), chanstate(qat(c.offlineSig, 0)), c.readConn, c.bufr, c.reconnectWait, wire, wire_len, wclosed, wdl, rdl, c.InNewSession.v, cpos
+//@ modifies chanstate(c.connSem), chanstate(c.writeSem), chanstate(c.atLeastOnce.seqSem), chanstate(c.exactlyOnce.seqSem), chanstate(c.onlineSig), chanstate(c.offlineSig), chanstate(qat(c.onlineSig, 0)), chanstate(qat(c.offlineSig, 0)), c.readConn, c.bufr, c.reconnectWait, wire, wire_len, wclosed, wdl, rdl, c.InNewSession.v, cpos, cancelled
 // Rely: the semaphores are closed only by the holder of the connSem token (Close, Disconnect)
 // and the sequence semaphores only by the read routine itself (termCallbacks).
 //@ stable writeSem, seqSem
@@ -722,7 +722,7 @@ package mqtt
 
 // Close: takes connection control for good, closes the connection, flips the signals
 // (Online blocked before Offline is released) and closes both semaphores exactly once.
-//@ pred closable(c): writable(c) && c.connSem != nil && cap(c.connSem) == 1 && c.connSem != c.writeSem && (closed(c.connSem) ==> len(c.connSem) == 0) && (closed(c.writeSem) == closed(c.connSem)) && sigfull(c)
+//@ pred closable(c): cancelof(c.cancel) == c.ctx && writable(c) && c.connSem != nil && cap(c.connSem) == 1 && c.connSem != c.writeSem && (closed(c.connSem) ==> len(c.connSem) == 0) && (closed(c.writeSem) == closed(c.connSem)) && sigfull(c)
 //@ func mqtt.(*Client).Close -> err
 //@ stable writeSem
 // Rely: whoever closes connSem has taken the write token and closed writeSem before.
@@ -730,6 +730,8 @@ package mqtt
 //@ requires closable(c)
 //@ at[C12] call clearSignalChan#1: assert ch == c.offlineSig && len(c.onlineSig) == 1 && !closed(qat(c.onlineSig, 0))
 //@ ensures[C12] closed(c.connSem) && closed(c.writeSem) && len(c.connSem) == 0 && len(c.writeSem) == 0
+// the context that dial and handshake run under is cancelled first, so a connect in progress is interrupted
+//@ ensures[C12,id=context_cancelled] cancelled(c.ctx)
 //@ ensures[C14] forall(k, wire_len(k) == old(wire_len(k)))
 
 //@ func mqtt.(*Client).Disconnect -> err
@@ -740,6 +742,8 @@ package mqtt
 //@ requires closable(c)
 //@ at[C12] call clearSignalChan#1: assert ch == c.offlineSig && len(c.onlineSig) == 1 && !closed(qat(c.onlineSig, 0))
 //@ ensures[C12] closed(c.connSem) && closed(c.writeSem) && len(c.connSem) == 0 && len(c.writeSem) == 0
+// the context that dial and handshake run under is cancelled first, so a connect in progress is interrupted
+//@ ensures[C12,id=context_cancelled] cancelled(c.ctx)
 //@ ensures[C12,C14] old(closed(c.connSem)) ==> err != nil && Is(err, ErrClosed) && forall(k, wire_len(k) == old(wire_len(k)))
 //@ ensures[C12,C14] err == nil ==> exists(w, wire_len(w) == old(wire_len(w)) + 2 && wire(w)[old(wire_len(w))] == 224 && wire(w)[old(wire_len(w)) + 1] == 0 && wclosed(w))
 //@ ensures[C14] err != nil && (Is(err, ErrClosed) || Is(err, ErrCanceled) || Is(err, ErrDown)) ==> forall(k, wire_len(k) == old(wire_len(k)))
@@ -837,6 +841,7 @@ package mqtt
 //@ modifies config.ReconnectWaitMin, config.ReconnectWaitMax, config.AtLeastOnceMax, config.ExactlyOnceMax
 //@ ensures[C17] config.AtLeastOnceMax == r.AtLeastOnceMax && config.ExactlyOnceMax == r.ExactlyOnceMax
 //@ ensures[C17] !closed(r.atLeastOnce.queue) && !closed(r.exactlyOnce.queue)
+//@ ensures[C12] r.ctx != nil && cancelof(r.cancel) == r.ctx
 //@ ensures[C17] r.AtLeastOnceMax == ite(old(config.AtLeastOnceMax) < 0 || old(config.AtLeastOnceMax) > 16383, 16384, old(config.AtLeastOnceMax)) && cap(r.atLeastOnce.queue) == r.AtLeastOnceMax && len(r.atLeastOnce.queue) == 0
 //@ ensures[C17] r.ExactlyOnceMax == ite(old(config.ExactlyOnceMax) < 0 || old(config.ExactlyOnceMax) > 16383, 16384, old(config.ExactlyOnceMax)) && cap(r.exactlyOnce.queue) == r.ExactlyOnceMax && len(r.exactlyOnce.queue) == 0
 //@ ensures[C17,C02] r.Acked == 0 && r.Received == 0 && r.Completed == 0 && len(r.atLeastOnce.seqSem) == 1 && qat(r.atLeastOnce.seqSem, 0).acceptN == 0 && qat(r.atLeastOnce.seqSem, 0).submitN == 0 && len(r.exactlyOnce.seqSem) == 1 && qat(r.exactlyOnce.seqSem, 0).acceptN == 0 && qat(r.exactlyOnce.seqSem, 0).submitN == 0
